@@ -1,7 +1,7 @@
 """C02 Emission / direct-image spectra equal the documented layered integral."""
 import ast
 
-from sa.helpers import (must_be_unconditional, event_of, conditions, mkflow, spec, code, one, calls, bind_call, param_env,
+from sa.helpers import (the_return, must_be_unconditional, event_of, conditions, mkflow, spec, code, one, calls, bind_call, param_env,
                         loop_matches, fmt, atom_of, unparse, unalloc, call_kw,
                         inline_calls)
 from sa.index import AnalysisError, FuncInfo
@@ -303,7 +303,7 @@ def _run(ix, R):
         imu = fl.tab.atom('idx', (ecall, fl.tab.const(1)))
         w = fl.tab.atom('idx', (ecall, fl.tab.const(2)))
         tau = fl.tab.atom('idx', (ecall, fl.tab.const(3)))
-        r = one(fl.of('return'), 'return')
+        r = the_return(fl)
         want = spec(fl, '(self.compute_final_flux(2*pi*sum(I*(w/imu), axis=0)), tau)',
                     {'I': I, 'imu': imu, 'w': w, 'tau': tau})
         R.check('4.flux', 'ALG', site, stmt, fl.tab.equal(r.value, want),
@@ -325,7 +325,7 @@ def _run(ix, R):
         b = param_env(fl, f, ['F'])
         b.update(SED=code(fl, 'self._star.spectralEmissionDensity'),
                  Rp=code(fl, 'self._planet.fullRadius'), Rs=code(fl, 'self._star.radius'))
-        r = one(fl.of('return'), 'return')
+        r = the_return(fl)
         want = spec(fl, 'F/SED*(Rp/Rs)**2', b)
         R.check('5.emis', 'ALG', site, stmt, fl.tab.equal(r.value, want),
                 key='returns %s' % fmt(fl, r.value),
@@ -338,7 +338,7 @@ def _run(ix, R):
         fl = mkflow(ix, site)
         b = param_env(fl, f, ['F'])
         b.update(Rp=code(fl, 'self._planet.fullRadius'), d=code(fl, 'self._star.distance'))
-        r = one(fl.of('return'), 'return')
+        r = the_return(fl)
         want = spec(fl, 'F*Rp**2/d**2', b)
         c = fl.tab.proportional(r.value, want)
         PC = 3.0856775814913673e16      # metres per parsec (IAU 2015)
@@ -374,7 +374,7 @@ def _run(ix, R):
             raise AnalysisError('black_body does not resolve to a function')
         fl = mkflow(ix, tgt)
         b = param_env(fl, tgt, ['nu', 'T'])
-        r = one(fl.of('return'), 'return')
+        r = the_return(fl)
         val = inline_calls(ix, fl, r.value, U, {'_black_body_vec', '_convert_lamb'})
         want = spec(fl, 'pi*(2*PLANCK*SPDLIGT**2)/lam**5/(exp(PLANCK*SPDLIGT/(lam*KBOLTZ*T))-1)*1e-6',
                     dict(b, lam=spec(fl, '10000*1e-6/nu', b)))
@@ -421,7 +421,7 @@ def _run(ix, R):
         ok = ok and len(rr) == 1 and fl.tab.equal(
             rr[0].value, fl.tab.atom('call', tuple(kc.args), extra=('fn:self.evaluate_emission_ktables',)))
         uf = mkflow(ix, E + '::EmissionModel.usingKTables')
-        ur = one(uf.of('return'), 'return')
+        ur = the_return(uf)
         ok2 = uf.tab.equal(ur.value, spec(uf, "GlobalCache()['opacity_method'] == 'ktables'"))
         R.check('7.switch', 'DOM', site, stmt, ok and ok2,
                 key='guard %s / %s' % ([g.text() for g in kc.guards], fmt(uf, ur.value)),
